@@ -30,10 +30,11 @@ them between cells, and the harness checks on the real `id()` graph that the rea
 either.
 
 Tokens are pairs `(namespace, serial)`: namespace `0` is everything that exists upstream (the
-input flow), namespace `1` the deep copies made by `Split`/`Zip` (one global counter), namespace
-`i + 2` the objects allocated by branch number `i` itself (its own counter).  Any injective
-naming scheme models Python's "a new object is different from every existing object"; this one
-makes the objects of a branch independent of what the other branches allocate.
+input flow), namespace `2 i + 3` the deep copies that `Split`/`Zip` make for branch number `i`
+(serials from one global counter), namespace `2 i + 2` the objects allocated by branch number `i`
+itself (its own counter).  Any injective naming scheme models Python's "a new object is different
+from every existing object"; this one makes the objects of a branch independent of what the other
+branches allocate, and lets one read off a copy for whom it was made.
 
 No imports except `Model/C03.lean` (`Kind`, `readBlock`) and `Model/Flow.lean` (`Value`, `dictSet`). -/
 
@@ -47,10 +48,10 @@ abbrev Tok := Nat × Nat
 
 /-- namespace of the objects that exist before `Split` sees them -/
 def upNs : Nat := 0
-/-- namespace of the deep copies made by `Split.run`, `Split._fill`, `Zip._fill` -/
-def copyNs : Nat := 1
+/-- namespace of the deep copies made by `Split.run`, `Split._fill`, `Zip._fill` for branch number `i` -/
+def copyNsOf (i : Nat) : Nat := 2 * i + 3
 /-- namespace of the objects allocated by the branch with number `i` -/
-def ownNs (i : Nat) : Nat := i + 2
+def ownNs (i : Nat) : Nat := 2 * i + 2
 
 /-- a flow value: immutable skeleton + the mutable objects it refers to, in a fixed order -/
 structure Item (S : Type) where
@@ -103,9 +104,9 @@ structure World (C : Type) where
   st : Store C
   cc : Nat
 
-/-- `copy.deepcopy(buf)` (one call, one memo) -/
-def deepcopy (w : World C) (buf : List (Item S)) : World C × List (Item S) :=
-  let r := copyItems copyNs { st := w.st, ctr := w.cc, memo := [] } buf
+/-- `copy.deepcopy(buf)` (one call, one memo); the new objects are named in namespace `ns` -/
+def deepcopy (ns : Nat) (w : World C) (buf : List (Item S)) : World C × List (Item S) :=
+  let r := copyItems ns { st := w.st, ctr := w.cc, memo := [] } buf
   ({ st := r.1.st, cc := r.1.ctr }, r.2)
 
 /-! ## branches as objects -/
@@ -227,9 +228,10 @@ def stepBranch (buf : List (Item S)) (st : Store C) (b : Branch σ S C) : StepRe
 
 /-- split.py:334-338: `if self._copy_buf and n_of_active_seqs - ind > 1: buf = copy.deepcopy(orig_buf)
 else: buf = orig_buf`; `more` is the value of `n_of_active_seqs - ind > 1` -/
-def chooseBuf (copyBuf more : Bool) (orig : List (Item S)) (w : World C) : World C × List (Item S) × Bool :=
+def chooseBuf (copyBuf more : Bool) (orig : List (Item S)) (ns : Nat) (w : World C) :
+    World C × List (Item S) × Bool :=
   if copyBuf && more then
-    let r := deepcopy w orig
+    let r := deepcopy ns w orig
     (r.1, r.2, true)
   else (w, orig, false)
 
@@ -239,8 +241,8 @@ def blockLoop (copyBuf : Bool) (orig : List (Item S)) :
   | 0, _, act, w, acc => (acc, act, w)
   | fuel + 1, ind, act, w, acc =>
     if h : ind < act.length then
-      let c := chooseBuf copyBuf (decide (act.length - ind > 1)) orig w
       let b := act[ind]
+      let c := chooseBuf copyBuf (decide (act.length - ind > 1)) orig (copyNsOf b.id) w
       let r := stepBranch c.2.1 c.1.st b
       match r.br with
       | none =>
@@ -316,7 +318,7 @@ structure FillAllRes (σ S C : Type) where
 /-- `seq.fill(copy.deepcopy(val))` / `seq.fill(val)` for one branch -/
 def fillOne (copied : Bool) (x : Item S) (w : World C) (b : Branch σ S C) :
     List (Ev S C) × World C × Branch σ S C × Bool :=
-  let c : World C × List (Item S) := if copied then deepcopy w [x] else (w, [x])
+  let c : World C × List (Item S) := if copied then deepcopy (copyNsOf b.id) w [x] else (w, [x])
   let y := c.2.headD x
   let r := b.ops.act c.1.st b.st (.fill y)
   ([.hand b.id [y] copied, .fill b.id y r.2.2.stopped], { c.1 with st := r.1 }, { b with st := r.2.1 }, r.2.2.stopped)
